@@ -2,6 +2,7 @@ package rules
 
 import (
 	"fmt"
+	"go/token"
 	"sort"
 	"strings"
 
@@ -275,6 +276,78 @@ func c08(w *core.World, r *core.Report) {
 		r.Check(s0.HasCallTo(name) && s1.HasCallTo(name), "DELETE-PAIR", core.Site(reg, "NewDeleteEntryImpl"), w.InstrPos(c), "both representations must depend on the old case")
 	}
 
+	// ---- BRANCH-WHOLE
+	r.Rule("BRANCH-WHOLE", 2, "GetBranchesHighesPrecedence answers for the path itself AND everything below it: every return comes after the walk over the whole keys index (no early answer from an exact hit), the loop accepts a key equal to the joined path (an equality test of the range key with the join result exists) as well as keys below it. Presence containers are stored at their own path while other intents may hold values below them.")
+	if f := w.Func("pkg/tree", "TreeCacheClientImpl", "GetBranchesHighesPrecedence"); f != nil {
+		var rng *ssa.Range
+		for _, b := range f.Blocks {
+			for _, in := range b.Instrs {
+				if x, ok := in.(*ssa.Range); ok && core.FieldOf(x.X) == "tree.TreeCacheClientImpl.intendedStoreIndex" {
+					rng = x
+				}
+			}
+		}
+		if rng == nil {
+			r.Undecided("BRANCH-WHOLE", core.Site(f, "range over the keys index"), w.Pos(f.Pos()), "no range over intendedStoreIndex")
+		} else {
+			for i, ret := range core.Returns(f) {
+				r.Check(core.InstrBefore(rng, ret), "BRANCH-WHOLE", core.Site(f, "return#%d after the index walk", i), w.InstrPos(ret), "an answer given before the whole index was walked ignores contributions below (or at) the path")
+			}
+			eq := false
+			for _, b := range f.Blocks {
+				for _, in := range b.Instrs {
+					bo, ok := in.(*ssa.BinOp)
+					if !ok || bo.Op != token.EQL {
+						continue
+					}
+					isJoin := func(v ssa.Value) bool {
+						for _, oc := range core.OriginCalls(v) {
+							if core.CalleeIs(oc, "strings.Join") {
+								return true
+							}
+						}
+						return false
+					}
+					isKey := func(v ssa.Value) bool {
+						for _, o := range core.Origins(v) {
+							if n, ok := o.(*ssa.Next); ok && n.Iter == ssa.Value(rng) {
+								return true
+							}
+						}
+						return false
+					}
+					if (isJoin(bo.X) && isKey(bo.Y)) || (isJoin(bo.Y) && isKey(bo.X)) {
+						eq = true
+					}
+				}
+			}
+			r.Check(eq, "BRANCH-WHOLE", core.Site(f, "the path itself is part of the branch"), w.InstrPos(rng), "index key == joined path must be accepted")
+		}
+	}
+
+	// ---- LOSER-DELETED
+	r.Rule("LOSER-DELETED", 2, "when the best case of a choice changes, the old case's node is itself put on the delete list: in getRegularDeletes the entry found for the old best case (childs.GetEntry) is appended to deletes as an element, and otherwise a synthetic delete entry is appended; the decision depends on nothing but 'old and new best case differ'. Asking the losing case for its own deletes is not enough: its owner's intent is still live, so it does not consider itself deletable.")
+	{
+		nEntry := 0
+		for _, c := range core.CallsTo(reg, "tree.childMap.GetEntry") {
+			nEntry++
+			appended := false
+			for _, b := range reg.Blocks {
+				for _, in := range b.Instrs {
+					st, ok := in.(*ssa.Store)
+					if !ok {
+						continue
+					}
+					if _, isElem := st.Addr.(*ssa.IndexAddr); isElem && core.HasOrigin(st.Val, c.Value()) {
+						appended = true
+					}
+				}
+			}
+			r.Check(appended, "LOSER-DELETED", core.Site(reg, "old case entry appended to deletes"), w.InstrPos(c), "the entry of the deactivated case must be deleted as a whole")
+		}
+		r.Check(nEntry > 0 && len(core.CallsTo(reg, "tree.NewDeleteEntryImpl")) > 0, "LOSER-DELETED", core.Site(reg, "synthetic delete when the old case is not loaded"), w.Pos(reg.Pos()), "the old case is deleted also when its entry is not in the tree")
+	}
+
 	// ---- CASE-ELEMENTS
 	r.Rule("CASE-ELEMENTS", 1, "names of choice CASES (keys of choiceCasesResolver.cases, results of get(Old)BestCaseName) are not data node names: a value that flows from them must not be used to look up a child (childMap.GetEntry) or to build a path element. With an explicit 'case foo { leaf a; leaf b; }' the old case would be 'deleted' as a non-existent node foo while a and b stay on the device.")
 	{
@@ -430,9 +503,9 @@ func c10(w *core.World, r *core.Report) {
 
 	// ---- TARGET-OPTIONS
 	r.Rule("TARGET-OPTIONS", 6, "sibling agreement of the targets: setRunning and setCandidate call ToXML(true, IncludeNS, OperationWithNamespace, UseOperationRemove) with exactly this field->position map; the three gNMI encodings call their encoder with onlyNewOrUpdated=true and all take the deletes from ToProtoDeletes.")
-	for _, n := range []string{"setRunning", "setCandidate"} {
-		f := w.Func("pkg/datastore/target", "ncTarget", n)
-		if f == nil {
+	// every ToXML call of the target package (the rendering may live in a shared helper), and both setters reach one
+	for _, f := range w.RepoFns {
+		if f.Pkg == nil || f.Pkg.Pkg.Path() != core.Module+"/pkg/datastore/target" {
 			continue
 		}
 		for _, c := range core.CallsTo(f, "datastore/target.TargetSource.ToXML") {
@@ -450,6 +523,11 @@ func c10(w *core.World, r *core.Report) {
 			r.Check(ok, "TARGET-OPTIONS", core.Site(f, "ToXML options"), w.InstrPos(c), "ToXML(true, IncludeNS, OperationWithNamespace, UseOperationRemove)")
 		}
 	}
+	for _, n := range []string{"setRunning", "setCandidate"} {
+		if f := w.Func("pkg/datastore/target", "ncTarget", n); f != nil {
+			r.Check(mayCall(f, 2, "datastore/target.TargetSource.ToXML"), "TARGET-OPTIONS", core.Site(f, "renders with ToXML"), w.Pos(f.Pos()), "the NETCONF setters render the tree with ToXML")
+		}
+	}
 	if f := w.Func("pkg/datastore/target", "gnmiTarget", "Set"); f != nil {
 		nEnc := 0
 		for _, c := range core.Calls(f) {
@@ -464,6 +542,10 @@ func c10(w *core.World, r *core.Report) {
 		nDel := len(core.CallsTo(f, "datastore/target.TargetSource.ToProtoDeletes"))
 		r.Check(nEnc == 3 && nDel == 3, "TARGET-OPTIONS", core.Site(f, "every encoding takes deletes from ToProtoDeletes"), w.Pos(f.Pos()), fmt.Sprintf("%d encoders, %d ToProtoDeletes calls", nEnc, nDel))
 	}
+
+	// ---- SORT-SHARED (shared with C11): the XML renderer needs the key names in key-statement order
+	r.Rule("SORT-SHARED", 12, "(shared with C11) no in-place sort / reverse of a slice that shares its backing array with a struct field, a package variable or the result of a repository function handing out such state: key names must stay in key-statement order for the XML key elements while tree levels use name order.")
+	ruleSortShared(w, r, "SORT-SHARED", "pkg/tree", "pkg/utils", "pkg/datastore", "pkg/datastore/clients/schema", "pkg/datastore/target", "pkg/datastore/target/netconf", "pkg/tree/importer/xml", "pkg/tree/importer/json", "pkg/tree/importer/proto")
 
 	// ---- KEYS
 	r.Rule("KEYS", 4, "key completion: xmlAddKeyElements / jsonAddKeyElements take the key values from keyLevelValues (which sorts the key names, see C11.KEY-ORDER) and xmlAddKeyElements inserts missing key elements at the position of the key in the key statement (InsertChildAt with the index of a range over the schema keys), so that keys come first and in key-statement order.")
